@@ -885,7 +885,7 @@ class HistogramBase(abc.ABC):
 
     def __radd__(self, other):
         if other == 0:  # Enable sum()
-            return self
+            return self.copy()
         return self + other
 
     def __iadd__(self, other):
